@@ -418,7 +418,8 @@ class C12(core.Check):
             scs.append({"name": "write-none-uncomp", "kind": "write", "cfg": {"comp": 0, "uncomp": True, "chunk_hash": 1}, "seg": [1000, "e"], "D": core.b64(Dsmall)})
         # files for the reader-side scenarios
         # "-dup": a run of byte-identical chunks (zeroed blocks of an image, repeated records), shared with the source
-        variants = [([3000, 40000, 100, 7000], 3, False, ""), ([1500, 2000, 2000, 2000, 2000, 700], 3, False, "-dup")]
+        # "-zeros": content with whole 32 KiB blocks of zeros (disk images): tools that treat such blocks specially do so here
+        variants = [([3000, 40000, 100, 7000], 3, False, ""), ([1500, 2000, 2000, 2000, 2000, 700], 3, False, "-dup"), ([3000, 100000, 500], 1, False, "-zeros")]
         if not q:
             # thorough: the same scenario families over differently shaped files (more / larger / single chunks, other checksum types,
             # uncompressed-source flag, no dictionary), so that every fault point exists at other buffer and chunk alignments too
@@ -428,6 +429,8 @@ class C12(core.Check):
           pieces = [gen.content("text", n, i) for i, n in enumerate(sizes_)]
           if vtag == "-dup":
               pieces[2] = pieces[3] = pieces[4] = pieces[1]
+          if vtag == "-zeros":
+              pieces[1] = bytes(len(pieces[1]))
           nbefore = len(scs)
           for comp in ((0, 2) if not q else (2,)):
             vdict = b"" if (uncomp_ or vtag == "-v3") else dict_b
@@ -469,6 +472,8 @@ class C12(core.Check):
             open(os.path.join(wd, "tgt.zck"), "wb").write(B)
             scs.append(dict(base, name="t-zckdl-c%s" % comp, kind="t-zckdl", A=core.b64(A), T=core.b64(bytes(T[: len(T) * 2 // 3])),
                             url="http://127.0.0.1:%d/~maxr=2/c12-c%s/tgt.zck" % (ctx["port"], comp)))
+          if vtag == "-zeros":
+              scs[nbefore:] = [x for x in scs[nbefore:] if x["kind"] in ("t-unzck", "t-unzck-c", "copy", "read")]
           if vtag == "-dup":
               # only the scenarios in which chunks are copied / scanned / read (the tools were enumerated on the first shape)
               scs[nbefore:] = [x for x in scs[nbefore:] if x["kind"] in ("copy", "copy-retry", "update", "fv", "vc", "read", "read-retry")]
